@@ -34,8 +34,9 @@ def positional(args):
 
 
 class Shapes:
-    def __init__(self, declared=None):
+    def __init__(self, declared=None, assume_scalar=False):
         self.declared = declared or {}     # atom -> tuple of Poly
+        self.assume_scalar = assume_scalar  # undeclared symbols (and their components) are scalars
         self.clashes = []
 
     # -------------------------------------------------------------- helpers
@@ -149,6 +150,12 @@ class Shapes:
             return ()
         if k == 'poly':
             return self.of(a[1], where)
+        if self.assume_scalar:
+            if k == 'sym':
+                return ()
+            if k == 'idx' and a[1][0] == 'sym' and a[1] not in self.declared and isinstance(a[2], Poly) \
+                    and a[2].const_value() is not None:
+                return ()
         if k == 'attr':
             if a[2] == 'T':
                 s = self.atom(a[1], where)
